@@ -14,7 +14,7 @@ EXPLANATION = (
     "and the truth table of the final condition over (previous, new) state enqueues exactly when a not-pending task "
     "becomes pending (R3); set_active_state aborts exactly when the state tag changed and otherwise retries once with "
     "retry_on_active (R4); execution_agent resumes with 'pending', suspends with 'suspended' and yields exactly the "
-    "requested state after recording the worker (R5); the worker publishes the yielded state by tagged CAS (R6). "
+    "requested state after recording the worker (R5). That the worker publishes the yielded state by tagged compare-exchange is decided under C01.R1-R3. "
     "Not decided: liveness of the helper task, timed suspension, priority inversion.")
 ASSUMPTIONS = ["thread_data::restore_state / set_state_tagged are compare-exchange based (decided in C01.R2)",
                "agent_ref::suspend/resume forward to execution_agent (virtual dispatch not followed)"]
@@ -29,7 +29,6 @@ def run(rep, tier):
     rep.rule("C02.R3", "K7/K3: set_thread_state: active => helper task or retry; loop exit only after restore_state; enqueue truth table")
     rep.rule("C02.R4", "K7: set_active_state aborts iff the tag changed; otherwise retries once with retry_on_active")
     rep.rule("C02.R5", "K8: execution_agent passes pending/suspended and yields the requested state after recording the worker")
-    rep.rule("C02.R6", "K4/K5: scheduling_loop publishes the yielded state through the tagged compare-exchange (see C01.R1-R3)")
 
     CVF = cvdetail.load(rep)
     cvdetail.wait_rules(rep, "C02.R1", CVF)
@@ -183,4 +182,3 @@ def run(rep, tier):
             rep.ok("C02.R5", dy, "do_yield records the worker and yields exactly the requested state")
         else:
             rep.bad("C02.R5", dy, loc_of(ev), "yield-args", "do_yield must forward the requested state unmodified (%s) after set_last_worker_thread_num (%s)" % (forwards, rec))
-    rep.instances["C02.R6"] += 0
